@@ -11,7 +11,7 @@ import httpx
 
 spec = json.load(sys.stdin)
 out = {}
-SAMPLE = {"id": 7, "1st": "first", "kind": "b", "inner": {"x": "deep"}, "note": "n", "extra": 1}
+SAMPLE = {"id": 7, "1st": "first", "kind": "b", "format": "xml", "inner": {"x": "deep"}, "note": "n", "extra": 1}
 
 
 def run(job):
@@ -60,6 +60,9 @@ def run(job):
                 kind_cls = getattr(models, "GetThingKind", None)
                 kind = kind_cls("a") if isinstance(kind_cls, type) and issubclass(kind_cls, enum.Enum) else "a"
                 r = m.sync_detailed(7, client=client, kind=kind)
+                calls[f"{tag}/{mod}"] = {"status": int(r.status_code), "parsed": r.parsed.to_dict() if r.parsed is not None else None}
+            elif mod == "list_items":
+                r = m.sync_detailed(client=client) if tag == "v1" else m.sync_detailed("s7", client=client)
                 calls[f"{tag}/{mod}"] = {"status": int(r.status_code), "parsed": r.parsed.to_dict() if r.parsed is not None else None}
             elif mod == "upload_blob":
                 r = m.sync_detailed(client=client, body=types_mod.File(payload=io.BytesIO(b"BLOBDATA")))
